@@ -360,6 +360,12 @@ func parseImplementsAnnotation(
 	} else {
 		// Look up in imports
 		imp := imports.Find(annotation.PackageName)
+		// Find also matches by import path (exact path or last path element); that is only a fallback for
+		// imports whose package name is unknown - a known package name that differs means the qualifier
+		// is not bound by this import
+		if imp != nil && imp.Alias != annotation.PackageName && imp.PackageName != "" && imp.PackageName != annotation.PackageName {
+			imp = nil
+		}
 		if imp != nil {
 			annotation.PackageFullPath = imp.FullPath
 			annotation.PackageNotFound = false
